@@ -71,9 +71,12 @@ def _calculate_overlap_job(job):
 
     genes = GeneData.read(job.gene_path)
     transposons = TransposonData.read(job.te_path)
-    overlap = OverlapWorker(job.output_filepath)
+    # NB calculate under a temporary name, the output is reused by later runs
+    # if it exists, so only a complete file may have the final name
+    partial_filepath = _partial_filepath(job)
+    overlap = OverlapWorker(partial_filepath)
     progress_cb = partial(job.progress_queue.put_nowait, 1)
-    file = overlap.calculate(
+    overlap.calculate(
         genes,
         transposons,
         job.window_range,
@@ -81,10 +84,18 @@ def _calculate_overlap_job(job):
         stop=job.stop_event,
         progress=progress_cb,
     )
+    os.replace(partial_filepath, job.output_filepath)
     result = OverlapResult(
-        overlap_file=file, gene_file=job.gene_path, te_file=job.te_path
+        overlap_file=job.output_filepath, gene_file=job.gene_path, te_file=job.te_path
     )
     return result
+
+
+def _partial_filepath(job):
+    """Path for the overlap file of the job while it is being calculated."""
+
+    directory, filename = os.path.split(job.output_filepath)
+    return os.path.join(directory, "partial_" + filename)
 
 
 def _process_overlap_job(job):
@@ -98,7 +109,9 @@ def _process_overlap_job(job):
         result = _calculate_overlap_job(job)
     except Exception as err:  # BUG SIGINT not caught here during testing?
         result = OverlapResult(exception=err, gene_file=job.gene_path)
-        os.path.remove(result.overlap_file)
+        if os.path.isfile(_partial_filepath(job)):
+            os.remove(_partial_filepath(job))
+        raise  # NB the pool reports it to the caller, the run must not succeed
     finally:
         job.result_queue.put(result)
 
